@@ -311,6 +311,27 @@ def snap(wt):
     return sorted(out)
 
 
+class _FullDisk:
+    """the shelf file object new_shelf() returns, failing with ENOSPC once [room] bytes are written"""
+
+    def __init__(self, real, room):
+        self._real, self._room = real, room
+
+    def write(self, data):
+        if len(data) > self._room:
+            self._room = 0
+            import errno
+            raise OSError(errno.ENOSPC, "No space left on device")
+        self._room -= len(data)
+        return self._real.write(data)
+
+    def close(self):
+        self._real.close()
+
+    def __getattr__(self, name):
+        return getattr(self._real, name)
+
+
 def _run_tree(inp):
     from breezy import shelf
     basis, wtree = inp["basis"], inp["wt"]
@@ -324,6 +345,13 @@ def _run_tree(inp):
         bm = tmap(basis)
         sid, err, offered = None, None, []
         mgr = wt.get_shelf_manager()
+        if inp.get("fault") is not None:
+            real_new_shelf, room = mgr.new_shelf, int(inp["fault"])
+
+            def faulty_new_shelf():
+                n, f = real_new_shelf()
+                return n, _FullDisk(f, room)
+            mgr.new_shelf = faulty_new_shelf
         with wt.lock_tree_write():
             # shelve -r rev-1 when an intermediate revision exists, else against the basis
             target = (wt.branch.repository.revision_tree(b"rev-1") if inp.get("mid") is not None
@@ -540,7 +568,7 @@ def model_term(inp):
                                                   coq_list([coq_bool(x) for x in inp["answers"]]))
     dom = sorted({e[0] for e in inp["basis"]} | {e[0] for e in inp["wt"]})
     sel = coq_list(["(%s, %s)" % (CTAG[TAGS[t]], coq_N(i)) for t, i in inp["sel"]])
-    return "run_tree %s %s %s %s" % (coq_list([coq_N(i) for i in dom]),
+    return "run_tree %s %s %s %s %s" % (coq_bool(inp.get("fault") is not None), coq_list([coq_N(i) for i in dom]),
                                      coq_list([_coq_entry(e) for e in inp["basis"]]),
                                      coq_list([_coq_entry(e) for e in inp["wt"]]), sel)
 
@@ -562,7 +590,7 @@ def impl_obs(inp, obs):
     if not _shelf_wf(inp):
         return [offered, Tag("shelf-not-wf"), None, None]
     if err is not None:
-        return [offered, err, shelves, None]
+        return [offered, err, shelves, after]
     if isinstance(ures, Err) or isinstance(unsh, Err) or ures != 0:
         return [offered, after, shelves, Tag("conflict")]
     touched = {i for _, i in inp["sel"]}
@@ -647,13 +675,19 @@ def oracle(inp, obs):
         return "tree: corrupt: working tree unreadable after shelve (%s)" % after
     am = tmap(after)
     if err is not None:
-        if wf(exp_w):
-            return "tree: refused: shelve raised %s although the selected changes can be removed on their own" % err
+        # a failed shelve must leave the changes where they were: in the tree
         if am != wm:
-            return "tree: refused: shelve raised %s and left the tree modified" % err
+            return ("tree: lost: shelve raised %s after changing the tree (shelves left: %r): the removed changes "
+                    "are neither in the tree nor on a usable shelf" % (err, shelves))
         if shelves:
             return "tree: stale-shelf: shelve raised %s but left shelf file(s) %r behind" % (err, shelves)
+        if inp.get("fault") is not None:
+            return None          # the injected write fault is a legitimate reason to refuse
+        if wf(exp_w):
+            return "tree: refused: shelve raised %s although the selected changes can be removed on their own" % err
         return None
+    if inp.get("fault") is not None:
+        return "tree: fault: the shelf file could not be written but shelve_changes reported success"
     want = delta(bm, wm) - {(i, FIELD[t]) for t, i in sel}
     got = delta(bm, am)
     if got != want:
@@ -725,6 +759,15 @@ def corpus():
     out.append({"kind": "ids", "names": _many(11)})
     out.append({"kind": "idops", "names": [], "ops": [["new"]] * 12 + [["read", 10], ["del", 12], ["new"], ["del", 9], ["new"]]})
     out.append({"kind": "idops", "names": _many(10), "ops": [["new"], ["read", 10], ["new"], ["del", 11], ["del", 12], ["new"]]})
+    # the shelf file cannot be written (ENOSPC at the first / a later write): nothing may be lost
+    for room in (0, 60):
+        out.append({"kind": "tree", "basis": ALLKINDS_BASIS, "wt": ALLKINDS_WT, "fault": room,
+                    "sel": [list(x) for x in spec_offered(ALLKINDS_BASIS, ALLKINDS_WT)]})
+    out.append({"kind": "tree", "basis": [[1, 0, "m", "f", b"1\n2\n", False]], "wt": [[1, 0, "m", "f", b"1\nX\n", False]],
+                "sel": [["text", 1]], "fault": 0})
+    # write_shelf itself raises (open selection, C15-open-selection): the tree must stay as it was
+    out.append({"kind": "tree", "basis": [[1, 0, "c", "d", b"", False], [2, 1, "a", "l", b"t1", False]],
+                "wt": [[1, 0, "c", "f", b"k\n", False]], "sel": [["kind", 1]]})
     # shelve -r rev-1 with a newer basis rev-2: the shelf must be based on the TARGET revision
     out.append({"kind": "tree", "basis": [[1, 0, "m", "f", b"1\n2\n", False]], "mid": [[1, 0, "m", "f", b"1\n2\n3\n", False]],
                 "wt": [[1, 0, "m", "f", b"0\n1\n2\n3\n", False]], "sel": [["text", 1]], "textmode": "lines"})
@@ -924,8 +967,11 @@ def cases(rng, tier):
         else:
             sels = [sorted(rng.sample(off, rng.randint(1, len(off)))) for _ in range(2 if quick else 3)]
         for s in sels:
-            yield {"kind": "tree", "basis": basis, "wt": wt, "sel": [list(x) for x in s],
-                   "textmode": rng.choice(["lines", "content"])}
+            case = {"kind": "tree", "basis": basis, "wt": wt, "sel": [list(x) for x in s],
+                    "textmode": rng.choice(["lines", "content"])}
+            if rng.random() < 0.12:
+                case["fault"] = rng.choice([0, 0, 60])
+            yield case
 
 
 def nontrivial(inp, obs):
